@@ -68,7 +68,7 @@ def replay_decode_plan(c, which, plan):
             if sg not in c.viol_sigs:
                 c.viol_sigs[sg] = 0
                 p = os.path.join(OUT, c.prop, "plan_%s_%d.json" % (which, len(c.violations)))
-                json.dump({"event": e, "expected_ok": want[0], "expected_err": want[1]}, open(p, "w"))
+                json.dump({"property": c.prop, "build": which, "event": e, "expected_ok": want[0], "expected_err": want[1]}, open(p, "w"))
                 c.violations.append(("[%s build] decode plan: entry %s returned ok=%s err=%s on %s, the specification says ok=%s err=%s"
                                      % (which, e.get("entry"), e.get("ok"), e.get("err"), e["b"], want[0], want[1]), p, sg))
             c.viol_sigs[sg] += 1
